@@ -49,13 +49,13 @@ def run(ctx):
                 dict(a1vect=[2, 0, 0], a2vect=[1, 3, 0], box=None, A1=[16, 0, 0], A2=[8, 24, 0]),
                 dict(a1vect=[0.5, -0.5, 0], a2vect=[0.5, 0.5, -1], box=box, A1=None, A2=None),
                 dict(a1vect=[0.5, -0.5, 0], a2vect=[0, 0.5, -0.5], box=box, A1=None, A2=None)]
-    ng = 12 if quick else 120
+    ng = 30 if quick else 200
     for gi in range(ng):
         n = int(rng.integers(4, 7))
         E = rng.integers(0, 21, (n, n)).astype(float)
-        st = settings[gi % 4]
-        edge = bool(gi % 2)
-        withdelta = gi % 3 == 0
+        st = settings[int(rng.integers(0, 4))]
+        edge = bool(rng.random() < .5)
+        withdelta = bool(rng.random() < .35)
         tag = 'gamma%d:n%d:%s%s%s' % (gi, n, 'box' if st['box'] is not None else 'cart', ':edge' if edge else '', ':delta' if withdelta else '')
         try:
             g1, g2, ge = gamma_grid(n, edge, E)
@@ -107,6 +107,28 @@ def run(ctx):
                     recs.append({'ev': 'gconv', 'tag': tag + ':npos%d' % npos, 'a1': st['A1'], 'a2': st['A2'], 'den': 8, 'f': f.tolist(),
                                  'pos': np.rint(P8).astype(int).tolist(), 'back': np.rint(back).astype(int).tolist(),
                                  'xyback': np.rint(xyb).astype(int).tolist(), 'xy2': [int(round(v)) for v in xy2], 'tol': 2, 'ongrid': bool(ok)})
+                # the same conversions with ALTERNATIVE in-plane vectors passed through the a1vect / a2vect keywords (x axis left to default)
+                alt1 = np.array(st['a1vect'], dtype=float) + np.array(st['a2vect'], dtype=float)
+                alt2 = np.array(st['a2vect'], dtype=float)
+                B1 = [int(p_ + q_) for p_, q_ in zip(st['A1'], st['A2'])]
+                for npos in (1, 5):
+                    f = rng.integers(-12, 13, (npos, 2))
+                    a1q, a2q = f[:, 0] / 8, f[:, 1] / 8
+                    if npos == 1:
+                        a1q, a2q = float(a1q[0]), float(a2q[0])
+                    pos = gs.a12_to_pos(a1q, a2q, a1vect=alt1, a2vect=alt2)
+                    arg = pos[0] if npos == 1 and np.ndim(pos) == 2 else pos
+                    b1, b2 = gs.pos_to_a12(arg, a1vect=alt1, a2vect=alt2)
+                    x, y = gs.a12_to_xy(a1q, a2q, a1vect=alt1, a2vect=alt2)
+                    c1, c2 = gs.xy_to_a12(x, y, a1vect=alt1, a2vect=alt2)
+                    P8 = np.reshape(pos, (-1, 3)) * 64
+                    back = np.vstack([np.ravel(b1), np.ravel(b2)]).T * 8
+                    xyb = np.vstack([np.ravel(c1), np.ravel(c2)]).T * 8
+                    ok = all(np.abs(z - np.rint(z)).max() < 1e-6 for z in (P8, back, xyb))
+                    xy2 = (np.ravel(x) ** 2 + np.ravel(y) ** 2) * 64 * 64
+                    recs.append({'ev': 'gconv', 'tag': tag + ':altvects:npos%d' % npos, 'a1': B1, 'a2': st['A2'], 'den': 8, 'f': f.tolist(),
+                                 'pos': np.rint(P8).astype(int).tolist(), 'back': np.rint(back).astype(int).tolist(),
+                                 'xyback': np.rint(xyb).astype(int).tolist(), 'xy2': [int(round(v)) for v in xy2], 'tol': 2, 'ongrid': bool(ok)})
         except Exception as e:
             import traceback
             tb = traceback.extract_tb(e.__traceback__)[-1]
@@ -115,24 +137,25 @@ def run(ctx):
     C_cub = am.ElasticConstants(C11=uc.set_in_units(110, 'GPa'), C12=uc.set_in_units(60, 'GPa'), C44=uc.set_in_units(30, 'GPa'))
     C_iso = am.ElasticConstants(C11=uc.set_in_units(100, 'GPa'), C12=uc.set_in_units(40, 'GPa'))
     disl = [('edge', [1, 1, -2]), ('screw', [1, -1, 0]), ('mixed', [1, 0, -1])]
-    npn = 6 if quick else 40
+    npn = 9 if quick else 45
     for pi in range(npn):
-        C = C_cub if pi % 2 == 0 else C_iso
+        cub = bool(rng.random() < .5)
+        C = C_cub if cub else C_iso
         name, xi = disl[pi % 3]
-        tag = 'pn%d:%s:%s' % (pi, name, 'cubic' if pi % 2 == 0 else 'iso')
+        tag = 'pn%d:%s:%s' % (pi, name, 'cubic' if cub else 'iso')
         try:
             vol = solve_volterra_dislocation(C, np.array([0.5, -0.5, 0.0]), ξ_uvw=xi, slip_hkl=[1, 1, 1], box=box)
             n = 4
             Eg = rng.integers(0, 9, (n, n)).astype(float)
-            g1, g2, ge = gamma_grid(n, bool(pi % 2), Eg)
+            g1, g2, ge = gamma_grid(n, bool(rng.random() < .5), Eg)
             gs = GammaSurface(a1vect=[0.5, -0.5, 0], a2vect=[0.5, 0.5, -1], a1=g1, a2=g2, E_gsf=ge, box=box)
             tau = np.zeros((3, 3))
             taurow = rng.integers(-3, 4, 3)
             tau[1, :] = taurow
             tau[:, 1] = taurow
             beta = rng.integers(0, 4, (3, 3)).astype(float)
-            alpha = [[2], [0, 3], [1, 2], [2, 0, 1], [0, 0, 2], [3, 1]][pi % 6]
-            opts = dict(cdiffelastic=bool(pi % 2), cdiffsurface=bool((pi // 2) % 2), cdiffstress=False, fullstress=True)
+            alpha = [[2], [0, 3], [1, 2], [2, 0, 1], [0, 0, 2], [3, 1]][int(rng.integers(0, 6))]
+            opts = dict(cdiffelastic=bool(rng.random() < .5), cdiffsurface=bool(rng.random() < .5), cdiffstress=False, fullstress=True)
             pn = SDVPN(volterra=vol, gamma=gs, tau=tau, alpha=alpha, beta=beta, **opts)
             N = 12
             x2 = -6
@@ -175,6 +198,18 @@ def run(ctx):
                          'eminus': int(round(el(da - db) * sc)), 'edouble': int(round(el(2 * da) * sc)),
                          'eshift': int(round(el(da + np.array([0.375, -1.0, 2.5])) * sc)),
                          'ecross12': int(round(cross12 * sc)), 'ecross21': int(round((el(db + da) - e2 - e1) * sc)), 'tol': 2})
+            # long-range term along a history of cutoffs on ONE object (setter, then solve-style keyword is exercised by pnsolve)
+            L1, L2 = float(rng.integers(3, 40)), float(rng.integers(41, 900)) / 4
+            hist = {}
+            for key, L in (('e1', L1), ('e2', L2), ('e12', L1 * L2), ('esq', L1 * L1), ('eone', 1.0)):
+                pn.cutofflongrange = L
+                hist[key] = pn.longrange_energy()
+                if key in ('e1', 'e12'):
+                    hist['t' + key] = pn.total_energy(xs, da)
+            kbb = float(np.inner(vol.burgers.dot(vol.K_tensor), vol.burgers).real)
+            scl = S / abs(kbb)
+            recs.append({'ev': 'pnlong', 'tag': tag, **{k_: int(round(hist[k_] * scl)) for k_ in ('e1', 'e2', 'e12', 'esq', 'eone')},
+                         'eform': int(round(kbb * np.log(L1) / (2 * np.pi) * scl)), 'dtot': int(round((hist['te12'] - hist['te1']) * scl)), 'tol': 4})
             # solve: never raises the energy, keeps the end values
             if pi < (2 if quick else 8):
                 xs2, d0 = pn_arctan_disregistry(xmax=10, xnum=21, burgers=vol.burgers, halfwidth=1.5)
